@@ -113,6 +113,7 @@ let run (cmd : string) (a : v list) : string =
   match cmd, a with
   | "greedy", [keep; k; ns; vs] -> pbins (Greedy.greedy vof (bool_ keep) (nat_ k) (items ns vs))
   | "roundrobin", [keep; k; ns; vs] -> pbins (Greedy.roundrobin vof (bool_ keep) (nat_ k) (items ns vs))
+  | "bidir", [keep; k; ns; vs] -> pbins (Balanced.bidirectional_balanced vof (bool_ keep) (nat_ k) (items ns vs))
   | "ff", [keep; c; ns; vs] -> pres pbins (Packing.first_fit vof (bool_ keep) (z_ c) (items ns vs))
   | "ffd", [keep; c; ns; vs] -> pres pbins (Packing.first_fit_decreasing vof (bool_ keep) (z_ c) (items ns vs))
   | "bf", [keep; c; ns; vs] -> pres pbins (Packing.best_fit vof (bool_ keep) (z_ c) (items ns vs))
